@@ -91,25 +91,34 @@ func c18BulkCopies(c *an.Ctx, fns []*ssa.Function) {
 				return
 			}
 			nSites++
-			gi := guardsAt(fn, call, fromInput)
-			var missing []string
-			for _, r := range shellSpecials {
-				if !gi.excluded[r] {
-					missing = append(missing, fmt.Sprintf("%q", r))
-				}
-			}
-			key := "verbatim-copy-guarded@" + an.FnName(fn)
-			switch {
-			case len(missing) == 0:
-				c.Pass("H1", key, call.Pos(), "a run of the input is copied verbatim; the dominating guards exclude $ ` \" \\")
-			case len(gi.unknown) > 0:
-				c.Info("H1", key, call.Pos(), fmt.Sprintf("a run of the input is copied verbatim under guards this rule does not interpret (%s); not decided", strings.Join(gi.unknown, "; ")))
-			default:
-				c.Fail("H1", key, call.Pos(), fmt.Sprintf("a run of the input is copied verbatim between the double quotes, bypassing the escape switch, and the guards dominating the copy do not exclude %s: a value containing it is handed to the shell unescaped", strings.Join(missing, " ")))
-			}
+			verbatimVerdict(c, "H1", "verbatim-copy-guarded@"+an.FnName(fn), fn, call, fromInput, shellSpecials,
+				"a run of the input is copied verbatim between the double quotes, bypassing the escape switch", "a value containing it is handed to the shell unescaped")
 		})
 	}
 	c.Note("verbatim bulk copies of the input in the quoting functions: %d", nSites)
+}
+
+// verbatimVerdict decides one verbatim copy: pass when the dominating guards exclude every rune of
+// required, info when a guard is not understood, violation otherwise.
+func verbatimVerdict(c *an.Ctx, rule, key string, fn *ssa.Function, site ssa.Instruction, fromInput func(ssa.Value) bool, required []rune, what, consequence string) {
+	gi := guardsAt(fn, site, fromInput)
+	var missing []string
+	for _, r := range required {
+		if !gi.excluded[r] {
+			missing = append(missing, fmt.Sprintf("%q", r))
+		}
+	}
+	if len(missing) > 6 {
+		missing = append(missing[:6], fmt.Sprintf("… (%d more)", len(missing)-6))
+	}
+	switch {
+	case len(missing) == 0:
+		c.Pass(rule, key, site.Pos(), what+"; the dominating guards exclude every byte that needs escaping")
+	case len(gi.unknown) > 0:
+		c.Info(rule, key, site.Pos(), fmt.Sprintf("%s under guards this rule does not interpret (%s); not decided", what, strings.Join(gi.unknown, "; ")))
+	default:
+		c.Fail(rule, key, site.Pos(), fmt.Sprintf("%s, and the guards dominating the copy do not exclude %s: %s", what, strings.Join(missing, " "), consequence))
+	}
 }
 
 // guardsAt collects what the conditional edges that dominate site say about the content of the input.
@@ -399,4 +408,77 @@ func contentDependent(v ssa.Value, fromInput func(ssa.Value) bool, seen map[ssa.
 		}
 	}
 	return false
+}
+
+// H2 (single pass).  The job script is produced by substituting quoted values for placeholders.  The
+// text that was substituted in must never be scanned for placeholders again: a path or argument that
+// happens to contain the text of another placeholder would be rewritten (or its line deleted).
+// Necessary condition: in jobScript no string-replacement call takes as its haystack a value derived
+// from the result of a replacement (strings.NewReplacer(...).Replace(template) is one simultaneous pass).
+func c18SinglePass(c *an.Ctx, fn *ssa.Function) {
+	type rep struct {
+		call *ssa.Call
+		hay  ssa.Value
+	}
+	var reps []rep
+	an.Instrs(fn, func(in ssa.Instruction) {
+		call, ok := in.(*ssa.Call)
+		if !ok {
+			return
+		}
+		f := call.Call.StaticCallee()
+		if f == nil || f.Pkg == nil || f.Pkg.Pkg.Path() != "strings" {
+			return
+		}
+		switch {
+		case f.Signature.Recv() == nil && (f.Name() == "Replace" || f.Name() == "ReplaceAll") && len(call.Call.Args) >= 3:
+			reps = append(reps, rep{call, call.Call.Args[0]})
+		case f.Signature.Recv() != nil && f.Name() == "Replace" && len(call.Call.Args) == 2:
+			reps = append(reps, rep{call, call.Call.Args[1]})
+		}
+	})
+	c.Floor("H2", "string replacement calls in jobScript", len(reps), 1)
+	isRep := map[ssa.Value]bool{}
+	for _, r := range reps {
+		isRep[r.call] = true
+	}
+	var derived func(v ssa.Value, seen map[ssa.Value]bool) bool
+	derived = func(v ssa.Value, seen map[ssa.Value]bool) bool {
+		if v == nil || seen[v] {
+			return false
+		}
+		seen[v] = true
+		if isRep[v] {
+			return true
+		}
+		switch x := v.(type) {
+		case *ssa.Phi:
+			for _, e := range x.Edges {
+				if derived(e, seen) {
+					return true
+				}
+			}
+		case *ssa.Slice:
+			return derived(x.X, seen)
+		case *ssa.Convert:
+			return derived(x.X, seen)
+		case *ssa.BinOp:
+			return derived(x.X, seen) || derived(x.Y, seen)
+		case *ssa.UnOp:
+			if x.Op == token.MUL {
+				// a local variable cell: any value stored into it
+				for _, r := range an.Referrers(x.X) {
+					if st, ok := r.(*ssa.Store); ok && st.Addr == x.X && derived(st.Val, seen) {
+						return true
+					}
+				}
+			}
+		}
+		return false
+	}
+	for _, r := range reps {
+		bad := derived(r.hay, map[ssa.Value]bool{})
+		c.Check("H2", "substitution-single-pass("+r.call.Call.StaticCallee().Name()+" over "+an.StablePath(r.hay)+")@(*RemoteJobManager).jobScript", r.call.Pos(), !bad,
+			"the text scanned for placeholders derives from the result of an earlier substitution: values already inserted (quoted paths, arguments, environment values) are scanned again and rewritten if they contain placeholder text")
+	}
 }
